@@ -9,7 +9,7 @@ use erltf::errors::DecodeError;
 use proptest::prelude::*;
 use refmodel::etf::{compress_stored, refdec, refenc_choices, VERSION};
 use refmodel::order::has_numerically_equal_keys;
-use refmodel::{erl_cmp, Cmp, Value};
+use refmodel::Value;
 use serde::{Deserialize, Serialize};
 use std::io::Write;
 
@@ -36,7 +36,7 @@ pub fn collapse_model(v: &Value) -> Value {
             for (k, x) in m {
                 let k = collapse_model(k);
                 let x = collapse_model(x);
-                if let Some(e) = out.iter_mut().find(|(k2, _)| erl_cmp(k2, &k) == Cmp::Equal) {
+                if let Some(e) = out.iter_mut().find(|(k2, _)| refmodel::order::loose_eq(k2, &k)) {
                     e.1 = x;
                 } else {
                     out.push((k, x));
